@@ -13,7 +13,7 @@ STATS = G.STATS
 PARTIAL = [
     "process pools (multi.*Container.tessellate, voxelize with num_procs) are runtime behaviour: compared across num_procs in {1,2,4,8} by the harness in floating point; the Lean side only has 'an order preserving map is List.map'",
     "GEOMDL_CACHE_SIZE: the Lean theorem is about an abstract LRU cache of any capacity (functools.lru_cache itself is trusted); the harness imports the package in sub-interpreters under each setting and compares a fixed knot-operation scenario",
-    "knot range: proved for curve / surface / volume POINT evaluation, for curve and surface DERIVATIVES (chain-rule factors a^-k, a1^-k*a2^-l; basis tables, A2.3 as coded, rational A4.2 / A4.4; knotvector.normalize: factor (last-first)^k), for knot insertion / removal / refinement at helper level and for one direction of insert_knot / remove_knot / refine_knotvector, and for split (identical pieces). NOT theorems: volume derivatives (library stub), the multi-direction folds insertKnot / removeKnot / refineKnotvector and decompose_* (the statements hold per direction; the fold / repeated split is not assembled), and the fixed tolerance of the code in REFINEMENT: the refinement theorems scale find_multiplicity's tolerance with the knot range (a*tol), i.e. they assume no knot distance falls between tol and a*tol (insert_knot / remove_knot / split also have same-tolerance versions under the explicit hypothesis that every knot equals the parameter or is further than tol away in both ranges)",
+    "knot range: proved for curve / surface / volume POINT evaluation, for curve and surface DERIVATIVES (chain-rule factors a^-k, a1^-k*a2^-l; basis tables, A2.3 as coded, rational A4.2 / A4.4; knotvector.normalize: factor (last-first)^k), for knot insertion / removal / refinement at helper level and for one direction of insert_knot / remove_knot / refine_knotvector, for split (identical pieces), and NOW ALSO for the whole calls: insertKnot / removeKnot / refineKnotvector (the folds over the directions, any subset requested, completed / raised flag included) on the shape with EVERY knot vector mapped by its own x -> a_d*x + b_d (Shape.affineKvs; hypotheses only for the requested directions: a_d > 0, non-empty knot vector, and either tol' = a_d*tol for each of them - one common factor or tol = 0, since the call has ONE tolerance - or, for insert / remove, the same tolerance with the separation hypothesis per requested direction and arbitrary per-direction factors), split of a shape mapped in all directions (pieces identical: every direction is normalised), decomposeDir and decomposeUV (same tolerance, separation hypothesis for the FIRST interior knot of the direction only; conclusion: identical list of pieces, or no split happens on either side and each returns its own un-normalised object; *_when_split: identical as soon as the first split is accepted, for decomposeUV then without any hypothesis about the v range). NOT theorems: volume derivatives (library stub); a scaled-tolerance form of decompose_* (false in general: after the first split both sides continue on the identical normalised piece, so the tolerances must agree); per-direction different factors with a scaled tolerance in ONE insert_knot / remove_knot / refine_knotvector call (the call has one tolerance; tol' = a_d*tol must hold for every requested direction); and the fixed tolerance of the code in REFINEMENT: the refinement theorems (helper, one direction, whole call) scale find_multiplicity's tolerance with the knot range (a*tol), i.e. they assume no knot distance falls between tol and a*tol (insert_knot / remove_knot / split / decompose have same-tolerance versions under the explicit hypothesis that every knot equals the parameter or is further than tol away in both ranges). The real operations are additionally run on both knot ranges by the oracle stream knot-range-ops (insert, insert+remove, refine on any subset of directions of curves / surfaces / volumes, decompose_curve / decompose_surface u / v / uv; exact arithmetic, no model involved)",
     "evaluator family: the evaluators AS CODED agree - CurveEvaluator (curveDersA32, A3.2 over A2.3) = CurveEvaluator2 (curveDersAt, A3.3/A3.4) in every entry k <= order (curve_evaluators_as_coded_agree), SurfaceEvaluator2 (surfaceDersA38, A3.7 + A3.8) = SurfaceEvaluator (surfaceDersA36, A3.6) in every entry with k + l <= order (surface_evaluators_as_coded_agree; the other entries of A3.8 stay zero) - on non-empty spans of sorted knot vectors inside the net (both sides equal the true derivative, C02); chain rule under an affine knot map also for the DEFAULT evaluators as coded through the span search on the closed domain (default_curve_derivatives_affine_knots, default_surface_derivatives_affine_knots); the theorems about curveDers / surfaceDersAt are about the A3.3/A3.4 evaluator resp. the tensor model, NOT about the default evaluator (their docs say so)",
     "span search option: termination / legal span index of find_span_binsearch on the whole domain is a theorem without the F-17b hypothesis, for tolerances 0 < tol < 1/2 only (the model's start index (p+n+1)/2 is the code's int(round((low+high)/2 + tol)) only there; with tol = 9 the real code raises IndexError; the driver runs the shipped tolerance 10e-6); equality with the linear search still needs the F-17b hypothesis (recorded finding)",
 ]
@@ -51,6 +51,41 @@ def gen(rng, tier):
             pn = [(u - kv[0]) / (kv[-1] - kv[0]) for (p, kv, kn), u in zip(S.dirs(d), ps)]
             line = "%s %s %s" % (OPS[d['kind']], S.args(dn), " ".join(fr(x) for x in pn))
             out.append(Case('knot-range', line, dict(shape=d, params=ps, nparams=pn)))
+    # knot OPERATIONS on another knot range (oracle only, real code on both ranges, exact arithmetic): the whole calls
+    # insert_knot / remove_knot / refine_knotvector with any subset of directions, decompose_curve / decompose_surface
+    for _ in range(40 if tier == 'quick' else 500):
+        d = KO.rand_shape(rng)
+        am = [(F(rng.choice([2, 3, F(1, 2), F(5, 3), 1])), F(rng.randint(-3, 3))) for _ in S.dirs(d)]
+        if all(a == 1 and b == 0 for a, b in am):
+            continue
+        op = rng.choice(['insert', 'insert-remove', 'refine', 'decompose'])
+        data = dict(shape=d, amap=am, op=op)
+        if op in ('insert', 'insert-remove'):
+            prm, nr, nt = [], [], []
+            for (p_, kv, n) in S.dirs(d):
+                ks = sorted(set(kv[p_:n + 1]))
+                cands = [x for x in ks[1:-1]] + [(x + y) / 2 for x, y in zip(ks, ks[1:])]
+                u = rng.choice(cands)
+                room = p_ - sum(1 for x in kv if x == u)
+                if rng.random() < .3 or room < 1:
+                    prm.append(None); nr.append(0); nt.append(0)
+                else:
+                    r = rng.randint(1, room)
+                    prm.append(u); nr.append(r); nt.append(rng.randint(1, r))
+            if all(x is None for x in prm):
+                continue
+            data.update(prm=prm, nr=nr, nt=nt)
+        elif op == 'refine':
+            dens = [rng.choice([0, 1, 1]) for _ in S.dirs(d)]
+            if not any(dens):
+                dens[0] = 1
+            data.update(dens=dens)
+        else:
+            if d['kind'] == 'volume':
+                continue
+            data.update(dirs=rng.choice(['u', 'v', 'uv']))
+        G.count('knot_range_op', (op, d['kind']))
+        out.append(Case('knot-range-ops', None, data))
     # derivatives under every configuration (binary span search x alternative evaluator), non-square nets
     for _ in range(25 if tier == 'quick' else 300):
         if rng.random() < .5:
@@ -103,6 +138,70 @@ def impl(c):
     return show_list(_eval(o, d, c.data['nparams']))
 
 
+KV_KEYS = {'curve': ['kv'], 'surface': ['kvu', 'kvv'], 'volume': ['kvu', 'kvv', 'kvw']}
+
+
+def _mapped(d, am):
+    """the same definition with the knot vector of direction i mapped by x -> a_i*x + b_i"""
+    dn = dict(d)
+    for key, (a, b) in zip(KV_KEYS[d['kind']], am):
+        dn[key] = [a * x + b for x in d[key]]
+    return dn
+
+
+def _range_ops(c, d, am):
+    """run the operation of the case on the definition `d` (parameters mapped with `am`, identity maps for the
+    original); returns the list of resulting definitions (object states / pieces) or ('ERR', name)"""
+    from geomdl import operations
+    x = c.data
+    o = S.build(d)
+    try:
+        if x['op'] in ('insert', 'insert-remove'):
+            qp = [None if u is None else q(a * u + b) for u, (a, b) in zip(x['prm'], am)]
+            operations.insert_knot(o, qp, list(x['nr']))
+            res = [S.from_obj(o)]
+            if x['op'] == 'insert-remove':
+                operations.remove_knot(o, qp, list(x['nt']))
+                res.append(S.from_obj(o))
+            return res
+        if x['op'] == 'refine':
+            operations.refine_knotvector(o, list(x['dens']))
+            return [S.from_obj(o)]
+        if d['kind'] == 'curve':
+            return [S.from_obj(pc) for pc in operations.decompose_curve(o)]
+        return [S.from_obj(pc) for pc in operations.decompose_surface(o, decompose_dir=x['dirs'])]
+    except Exception as e:
+        return ('ERR', type(e).__name__)
+
+
+def _knot_range_ops(c):
+    d = c.data['shape']
+    am = [(F(a), F(b)) for a, b in c.data['amap']]
+    ident = [(F(1), F(0))] * len(am)
+    base = _range_ops(c, d, ident)
+    got = _range_ops(c, _mapped(d, am), am)
+    op = c.data['op']
+    if isinstance(base, tuple) or isinstance(got, tuple):
+        if isinstance(base, tuple) and isinstance(got, tuple):
+            return None
+        return "%s: original range gives %s, mapped range %s" % (op, base if isinstance(base, tuple) else 'a result', got if isinstance(got, tuple) else 'a result')
+    if len(base) != len(got):
+        return "%s: %d results on the original range, %d on the mapped one" % (op, len(base), len(got))
+    if op == 'decompose':
+        # pieces are normalised by their constructor: identical - unless nothing was split (the object itself comes back)
+        if len(base) == 1 and base[0] != got[0]:
+            return None if _mapped(base[0], am) == got[0] else "decompose: the single piece differs by more than the knot map"
+        for i, (x, y) in enumerate(zip(base, got)):
+            if x != y:
+                return "decompose: piece %d differs between the knot ranges" % i
+        return None
+    for i, (x, y) in enumerate(zip(base, got)):
+        if _mapped(x, am) != y:
+            what = 'control points' if x['P'] != y['P'] else 'knot vectors / sizes'
+            return "%s (step %d): %s on the mapped range are not the mapped result" % (op, i, what)
+    return None
+
+
 def _probe(scenario, seed, env_extra, nproc=1):
     env = dict(os.environ)
     env.pop('GEOMDL_CACHE_SIZE', None)
@@ -142,6 +241,8 @@ def oracle(c):
         if list(got) != want:
             return "normalised knots give %s, original range %s" % (show_list(got), show_list(want))
         return None
+    if c.kind == 'knot-range-ops':
+        return _knot_range_ops(c)
     if c.kind == 'ders-config':
         d = c.data['shape']
         base = S.build(d)
